@@ -617,6 +617,20 @@ def r10(run):
         run.ob("xs::api::handle_head_get|options|start", tv is not None and tv[0] == "const" and tv[1].get("bool") is True and from_head, rd.sp,
                "the subscription skips history (tail) and resumes strictly after the head it already answered with (last_id = head.id): tail=%s last_id-from-head=%s" % (
                    fmt(tv) if tv is not None else None, from_head), reason="head-follow-options")
+    # the subscription is scoped to exactly the context the head was looked up in
+    if info["kind"] == "builder" and heads:
+        hc = fmt(strip(heads[0].arg(2)))
+        cs = info["setters"].get("context_id")
+        same = False
+        if cs is not None and cs[0] is not None:
+            a = strip(cs[0])
+            if cs[2]:    # maybe_context_id(opt): must be Some(<head context>)
+                same = a[0] == "agg" and a[1].get("variant") == "Some" and a[2] and fmt(strip(a[2][0])) == hc
+            else:
+                same = fmt(a) == hc
+        run.ob("xs::api::handle_head_get|options|same-context", same, rd.sp,
+               "the follow subscription is scoped to the very context the head was looked up in (head: %s, subscription: %s)" % (
+                   hc[:60], fmt(strip(cs[0]))[:60] if cs is not None and cs[0] is not None else "unset = all contexts"), reason="head-follow-options")
     # only frames of that topic are streamed
     flt = [c for c in hb.calls() if c.bb in hb.live_blocks() and c.fn.endswith("StreamExt::filter")]
     ok = False
